@@ -208,6 +208,23 @@ func perms(r *rand.Rand, n, sample int) [][]int {
 	return out
 }
 
+func reversed(n int) []int {
+	o := make([]int, n)
+	for i := range o {
+		o[i] = n - 1 - i
+	}
+	return o
+}
+
+func permCase(c rescorr.Case, order []int) rescorr.Case {
+	d := c
+	d.Names, d.Texts = make([]string, len(order)), make([]string, len(order))
+	for i, j := range order {
+		d.Names[i], d.Texts[i] = c.Names[j], c.Texts[j]
+	}
+	return d
+}
+
 // ---------- replay payloads ----------
 
 type replay struct {
@@ -647,7 +664,10 @@ func main() {
 			}
 		}
 		if r := rescorr.Request(c); r != "" {
-			modelReqs = append(modelReqs, r)
+			// the model's single result, and (the load-order theorem for the model is not proved)
+			// its result for the reversed and for a shuffled load order
+			modelReqs = append(modelReqs, r, rescorr.Request(permCase(c, reversed(len(c.Names)))),
+				rescorr.Request(permCase(c, f.Rand(4_000_000+i).Perm(len(c.Names)))))
 			modelIdx = append(modelIdx, i)
 		}
 	}
@@ -657,10 +677,14 @@ func main() {
 		lib.Fatal("drv_res: %v", err)
 	}
 	for k, i := range modelIdx {
-		a := ans[k]
+		a := ans[3*k]
 		if strings.HasPrefix(a, "outsideModel") {
 			outside++
 			continue
+		}
+		if ans[3*k+1] != a || ans[3*k+2] != a {
+			res.AddDisagreement(lib.Disagreement{Kind: "correspondence", Input: jobs[i].Case, Go: outs[i].First.Dump, Model: []string{a, ans[3*k+1], ans[3*k+2]},
+				SpecVerdict: "", What: "the resolver model's own result depends on the load order (written, reversed, shuffled)", Replay: replay{Mode: "lib", Case: jobs[i].Case}})
 		}
 		var model []string
 		if a != "" {
